@@ -184,12 +184,12 @@ Section DSepProofs.
       { apply ds_iter_closed; [exact Hwf|apply ds_union_nodup; constructor| |lia].
         intros z Hz; apply ds_union_in in Hz; destruct Hz as [Hz|[]].
         apply ds_children_in in Hz; destruct Hwf as [_ Hwf]; apply (Hwf x z Hz). }
-      assert (H0 : forall c, arc g x c -> In c (iter (length (verts g)) g S0)).
+      assert (Hkids : forall c, arc g x c -> In c (iter (length (verts g)) g S0)).
       { intros c Hc0; apply ds_iter_mono, ds_union_in; left; apply ds_children_in; exact Hc0. }
-      revert H0; generalize (iter (length (verts g)) g S0) Hc; intros D HD.
-      clear Hc S0. apply clos_trans_t1n in Hp; induction Hp as [a b Hab|a b c Hab Hbc IH]; intros H0.
-      + apply H0, Hab.
-      + apply IH; intros d Hd; eapply HD; [apply H0, Hab|exact Hd].
+      revert Hkids; generalize (iter (length (verts g)) g S0) Hc; intros D HD.
+      clear Hc S0. apply clos_trans_t1n in Hp; induction Hp as [a b Hab|a b c Hab Hbc IH]; intros Hkids.
+      + apply Hkids, Hab.
+      + apply IH; intros d Hd; eapply HD; [apply Hkids, Hab|exact Hd].
   Qed.
 
   (** * Paths: basic facts *)
@@ -520,6 +520,13 @@ Section DSepProofs.
   Definition min_dsep_set_statement : Prop :=
     forall (g : digraph A) u v, wf g -> acyclic g -> In u (verts g) -> In v (verts g) ->
       u <> v -> ~ arc g u v -> ~ arc g v u -> min_sep eqb g u v (min_dsep_set eqb g u v).
+
+  (** The algorithmic model of [is_minimally_d_separated] computes [min_sepb].  NOT proved in
+      general (same missing ingredient); see [nx_min_sepb_partial] for <= 4 nodes. *)
+  Definition nx_min_sepb_statement : Prop :=
+    forall (g : digraph A) u v Z, wf g -> acyclic g -> In u (verts g) -> In v (verts g) ->
+      incl Z (verts g) -> u <> v -> ~ In u Z -> ~ In v Z ->
+      nx_min_sepb eqb g u v Z = min_sepb eqb g u v Z.
 End DSepProofs.
 
 (** * Non-vacuity and behaviour pinned to the real library (vertices are [nat]) *)
@@ -717,7 +724,7 @@ Example min_dsep_set_partial :
 Proof.
   split; [vm_compute; reflexivity|].
   intros n H; simpl in H.
-  repeat (destruct H as [H|H]; [subst n; vm_compute; reflexivity|]); contradiction.
+  repeat (destruct H as [H|H]; [subst n; vm_cast_no_check (eq_refl true)|]); contradiction.
 Qed.
 
 (** * [is_minimally_d_separated]: the algorithmic model agrees with "no single node can be
@@ -739,5 +746,5 @@ Example nx_min_sepb_partial :
   forall n, In n [1; 2; 3; 4] -> forallb (ds_check_min n) (ds_orient (ds_upairs n)) = true.
 Proof.
   intros n H; simpl in H.
-  repeat (destruct H as [H|H]; [subst n; vm_compute; reflexivity|]); contradiction.
+  repeat (destruct H as [H|H]; [subst n; vm_cast_no_check (eq_refl true)|]); contradiction.
 Qed.
